@@ -89,6 +89,17 @@ class _GenClose(BaseException):
     pass
 
 
+class EagerGen(list):
+    """the items of a generator expression, computed at once; `pos` is how many of them next() has handed out"""
+    pos = 0
+
+    def take(self):
+        if self.pos >= len(self):
+            raise StopIteration()
+        self.pos += 1
+        return self[self.pos - 1]
+
+
 class GenObject:
     """A generator of the interpreted program.  The body runs in its own thread that alternates STRICTLY with the
     consumer (hand-off by two semaphores - never concurrently), so the interpreter's single path state is shared
@@ -210,6 +221,8 @@ class Path:
         self.taken = []
         self.events = []        # ghost / frame events in order
         self.notes = []
+        self.known = {}         # id of a (simplified) branch condition decided earlier on this path -> its decision
+        self.lazysets = {}      # id -> set with symbolic members that may be equal in value (models.settle_set)
 
 
 _ast_cache = {}
@@ -538,6 +551,14 @@ class Interp:
         if z3.is_false(c):
             return False
         p = self.path
+        # the very same condition (or its negation) decided earlier on this path: no new branch point, no solver call
+        k = p.known.get(c.get_id())
+        if k is not None:
+            return k
+        if z3.is_not(c):
+            k = p.known.get(c.arg(0).get_id())
+            if k is not None:
+                return not k
         if p.i < len(p.prefix):
             d = p.prefix[p.i]
         else:
@@ -557,6 +578,7 @@ class Interp:
         p.taken.append(d)
         t = c if d else z3.Not(c)
         p.pc.append(t)
+        p.known[c.get_id()] = d
         self.solver.add(t)
         return d
 
@@ -616,6 +638,25 @@ class Interp:
             return f(self, *args, **kwargs)
         if isinstance(f, types.MethodType):
             return self.call(f.__func__, [f.__self__] + args, kwargs)
+        if isinstance(f, (pyop.methodcaller, pyop.itemgetter, pyop.attrgetter)) and len(args) == 1 and not kwargs:
+            # objects of the operator module made when the repository's module was imported: what they do is in their pickle form
+            ctor, cargs = f.__reduce__()[:2]
+            obj = args[0]
+            if isinstance(f, pyop.methodcaller):
+                kw = {}
+                if isinstance(ctor, functools.partial):
+                    kw, cargs = dict(ctor.keywords), tuple(ctor.args[0:]) + tuple(cargs)
+                return self.call(self.getattr(obj, cargs[0]), list(cargs[1:]), kw)
+            if isinstance(f, pyop.itemgetter):
+                vals = [self.getitem(obj, k) for k in cargs]
+                return vals[0] if len(vals) == 1 else tuple(vals)
+            outs = []
+            for path in cargs:
+                o = obj
+                for part in path.split('.'):
+                    o = self.getattr(o, part)
+                outs.append(o)
+            return outs[0] if len(outs) == 1 else tuple(outs)
         if isinstance(f, functools.partial):
             merged = dict(f.keywords)
             merged.update(kwargs)
@@ -960,6 +1001,13 @@ class Interp:
             return it.iterate(self)
         if isinstance(it, GenObject):
             return it.drain()
+        if isinstance(it, set) and id(it) in self.path.lazysets:
+            from . import models as _m
+            _m.settle_set(self, it)
+        if isinstance(it, EagerGen):
+            rest = list(it[it.pos:])               # what next() has not handed out yet; an iterator is used up by iterating it
+            it.pos = len(it)
+            return rest
         if isinstance(it, (list, tuple)):
             return list(it)
         if isinstance(it, (str, dict, set, frozenset, range, types.GeneratorType)) or \
@@ -1769,7 +1817,8 @@ class Interp:
         return out
 
     def e_GeneratorExp(self, e, env):
-        return self.e_ListComp(e, env)           # eager; fine for side-effect-free element expressions
+        # eager (fine for side-effect-free element expressions), but still an ITERATOR: next() takes the items one by one
+        return EagerGen(self.e_ListComp(e, env))
 
     def e_SetComp(self, e, env):
         out = self.e_ListComp(e, env)
